@@ -21,6 +21,7 @@ type GenOpts struct {
 	RedactRate   int  // when > 0, one field in RedactRate carries go.redact and one in 2*RedactRate go.nolog (C15 labs)
 	MoreServices bool // more services and functions per file (C19)
 	UniqueNames  bool // never define the same type name in two files
+	ForceCluster bool // every file defines one shared type name (see genCluster); otherwise one program in three
 	TypedefArgs  bool // every file gets typedefs of every shape and function signatures prefer them (C19)
 	Hostile      bool // draw identifiers and file names from the hostile pool (Go keywords, initialisms, generated-method names, std package names)
 	BackEdges    bool // cyclic includes: later files include earlier ones and typedef their types (compile-only properties)
@@ -76,6 +77,7 @@ type gctx struct {
 	sigTypedefs   []*Def   // typedefs function signatures should prefer (TypedefArgs)
 	structOnlyOK  bool     // the field list under construction belongs to a struct or union
 	hden          int      // see hostileDen
+	negIDsOK      bool     // negative field ids may be drawn (inside genStruct)
 	clusterName   string   // a type name every file of the program defines (name clusters)
 	enumItemNames []string // Go constant names of generated enum items (hostile collisions)
 }
@@ -159,7 +161,7 @@ func GenProgram(t *rapid.T, o *GenOpts) *Program {
 		files = append(files, &File{Path: dir + stem + ".thrift"})
 	}
 	g.p.Files = files
-	if !o.UniqueNames && nf >= 2 && g.chance(1, 3, "cluster") {
+	if !o.UniqueNames && nf >= 2 && (o.ForceCluster || g.chance(1, 3, "cluster")) {
 		g.clusterName = fmt.Sprintf("Shared%d", g.intn(1, 99, "cluster_n"))
 		if g.chance(1, 3, "cluster_native") {
 			// a custom type called like the mangled name of a native type (F25)
@@ -209,6 +211,26 @@ func GenProgram(t *rapid.T, o *GenOpts) *Program {
 				if d.Kind == DEnum || d.Kind == DTypedef || d.IsStructLike() {
 					cands = append(cands, d)
 				}
+			}
+			// a reference cycle across the two files: the typedef lives in the later file, its
+			// target struct in the earlier one, and that struct reaches a field of the typedef's
+			// type that carries a default. The structs have fields of builtin types only, so that
+			// casting the default needs nothing but the root of the typedef (known finding K4 is
+			// about defaults that need more than that).
+			if g.o.Defaults && includes(to, from.Path) && g.chance(1, 2, "crosscycle") {
+				g.file = to
+				node, holder := g.newTypeName(), g.newTypeName()
+				g.file = from
+				alias := g.newTypeName()
+				from.Defs = append(from.Defs, &Def{Kind: DTypedef, Name: alias, Target: &Type{K: TRef, Ref: &Ref{File: to.Path, Name: node}}, File: from.Path})
+				to.Defs = append(to.Defs,
+					&Def{Kind: DStruct, Name: node, File: to.Path, Fields: []*Field{
+						{ID: 1, Name: "holder", Type: &Type{K: TRef, Ref: &Ref{File: to.Path, Name: holder}}, Req: "optional"},
+						{ID: 2, Name: "weight", Type: &Type{K: TI32}, Req: "optional"},
+						{ID: 3, Name: "label", Type: &Type{K: TString}, Req: "optional"}}},
+					&Def{Kind: DStruct, Name: holder, File: to.Path, Fields: []*Field{
+						{ID: 1, Name: "node", Type: &Type{K: TRef, Ref: &Ref{File: from.Path, Name: alias}}, Req: "optional",
+							Default: &Const{K: "map", Pairs: [][2]*Const{{{K: "string", S: "weight"}, {K: "int", I: int64(g.intn(0, 9, "crossw"))}}}}}}})
 			}
 			if len(cands) > 0 {
 				d := cands[g.intn(0, len(cands)-1, "backtarget")]
@@ -330,6 +352,15 @@ func (g *gctx) genFile(f *File) {
 					} else {
 						back.Default = &Const{K: "map"}
 					}
+					// ... or the same empty value through a constant of that type: the constant's
+					// type reaches the struct whose default names the constant
+					if g.o.Consts && g.chance(1, 2, "backdefault_const") {
+						g.n++
+						cd := &Def{Kind: DConst, Name: fmt.Sprintf("NO_ITEMS_%d", g.n), Type: last, Value: back.Default, File: f.Path}
+						add(cd)
+						g.consts = append(g.consts, cd)
+						back.Default = &Const{K: "ref", Ref: &ConstRef{Target: Ref{File: f.Path, Name: cd.Name}}}
+					}
 				}
 				st.Fields = append(st.Fields, back)
 			}
@@ -341,6 +372,26 @@ func (g *gctx) genFile(f *File) {
 				}
 			}
 		}
+	}
+	if g.o.Recursive && g.o.Defaults && g.chance(1, 5, "mutualpair") {
+		// two structs that refer to each other; the field closing the cycle has the default {},
+		// which stands for a value of the other struct with that struct's own defaults filled in.
+		// The other struct's defaulted fields are of builtin types and use literals whose source
+		// form differs from the cast form (1 for a double or a bool, hex). (Defaulted fields of
+		// named types at that place are known finding K4.)
+		a, b := g.newTypeName(), g.newTypeName()
+		refA := &Type{K: TRef, Ref: &Ref{File: f.Path, Name: a}}
+		refB := &Type{K: TRef, Ref: &Ref{File: f.Path, Name: b}}
+		add(&Def{Kind: DStruct, Name: a, Fields: []*Field{
+			{ID: 1, Name: "peer", Type: refB, Req: "optional"},
+			{ID: 2, Name: "ratio", Type: &Type{K: TDouble}, Req: "optional", Default: &Const{K: "int", I: int64(g.intn(0, 9, "mp_ratio"))}},
+			{ID: 3, Name: "flag", Type: &Type{K: TBool}, Req: "optional", Default: &Const{K: "int", I: 1}},
+			{ID: 4, Name: "count", Type: &Type{K: TI64}, Req: "optional", Default: &Const{K: "int", I: 7, Spell: "0x7"}},
+		}})
+		add(&Def{Kind: DStruct, Name: b, Fields: []*Field{
+			{ID: 1, Name: "owner", Type: refA, Req: "optional", Default: &Const{K: "map"}},
+			{ID: 2, Name: "others", Type: &Type{K: TList, Elem: refA}, Req: "optional"},
+		}})
 	}
 	if g.clusterName != "" {
 		g.genCluster(f, add)
@@ -603,9 +654,18 @@ func (g *gctx) fieldName(used map[string]bool) string {
 func (g *gctx) genFieldID(used map[int]bool) int {
 	for {
 		var id int
-		switch g.intn(0, 9, "idmode") {
+		mode := g.intn(0, 9, "idmode")
+		if !(g.o.NonStrict && g.negIDsOK) && (mode == 1 || mode == 2) {
+			mode = 9 // negative ids: fields of structs, unions and exceptions in non-strict mode only
+		}
+		switch mode {
 		case 0:
 			id = rapid.SampledFrom([]int{1, 32767, 255, 256, 1000}).Draw(g.t, g.label("idedge"))
+		case 1:
+			// negative ids are legal in non-strict mode
+			id = rapid.SampledFrom([]int{-1, -2, -255, -256, -32768}).Draw(g.t, g.label("idnegedge"))
+		case 2:
+			id = -g.intn(1, 12, "idneg")
 		default:
 			id = g.intn(1, 12, "id")
 		}
@@ -626,7 +686,8 @@ func (g *gctx) genStruct() *Def {
 	}
 	d := &Def{Kind: kind, Name: g.newTypeName()}
 	g.structOnlyOK = kind != DException
-	defer func() { g.structOnlyOK = false }()
+	g.negIDsOK = true
+	defer func() { g.structOnlyOK, g.negIDsOK = false, false }()
 	n := g.intn(0, 6, "nfields")
 	if kind == DUnion && n == 0 {
 		n = 1
@@ -723,7 +784,7 @@ func (g *gctx) genConstC(t *Type, depth int, canon bool) *Const {
 		}
 	}
 	// reference to an existing constant of exactly this type spelling
-	if !canon && g.chance(1, 5, "constref") {
+	if !canon && g.chance(1, 3, "constref") {
 		for _, c := range g.consts {
 			if sameType(c.Type, t) && (c.File == g.file.Path || includes(g.file, c.File)) {
 				return &Const{K: "ref", Ref: &ConstRef{Target: Ref{File: c.File, Name: c.Name}}}
@@ -946,8 +1007,47 @@ func constIn(cs []*Const, c *Const) bool {
 	return false
 }
 
+// nameable: every definition the type mentions can be named from the current file (its own
+// or one of a file it includes).
+func (g *gctx) nameable(t *Type) bool {
+	if t == nil {
+		return true
+	}
+	if t.K == TRef && t.Ref != nil && t.Ref.File != g.file.Path && !includes(g.file, t.Ref.File) {
+		return false
+	}
+	return g.nameable(t.Elem) && g.nameable(t.Key) && g.nameable(t.Val)
+}
+
 func (g *gctx) genConstDef() *Def {
 	t := g.genType(2, true)
+	// constants come in families of one type (an enum, a typedef, a container), the later ones
+	// naming the earlier ones: take the type of a visible constant
+	if g.chance(1, 3, "const_sametype") {
+		var vis []*Def
+		for _, c := range g.consts {
+			if c.File == g.file.Path || includes(g.file, c.File) {
+				vis = append(vis, c)
+			}
+		}
+		if len(vis) > 0 {
+			if ct := vis[g.intn(0, len(vis)-1, "const_sametype_i")].Type; g.nameable(ct) {
+				t = ct
+			}
+		}
+	} else if g.chance(1, 3, "const_named_type") {
+		// a constant of an enum or typedef type (named types are referenced, never inlined)
+		var named []*Def
+		for _, d := range g.pool {
+			if d.Kind == DEnum || (d.Kind == DTypedef && d.Target != nil && d.Target.K != TRef && d.Target.K != TList && d.Target.K != TSet && d.Target.K != TMap && d.Target.K != TBinary) {
+				named = append(named, d)
+			}
+		}
+		if len(named) > 0 {
+			d := named[g.intn(0, len(named)-1, "const_named_i")]
+			t = &Type{K: TRef, Ref: &Ref{File: d.File, Name: d.Name}}
+		}
+	}
 	v := g.genConst(t, 3)
 	if v == nil {
 		return nil
